@@ -12,6 +12,9 @@ import (
 	"strconv"
 	"strings"
 	"time"
+
+	"golang.org/x/tools/go/ssa"
+	"golang.org/x/tools/go/ssa/ssautil"
 )
 
 type propDef struct {
@@ -91,6 +94,18 @@ func main() {
 			if strings.Contains(safeFname(f), *dumpFunc) {
 				f.WriteTo(os.Stdout)
 			}
+		}
+		// instances of the module's generic functions and the wrappers of its methods (thunks, bound methods) are
+		// synthetic and therefore not in ModFuncs; rules that look through them need to see their bodies too
+		var syn []*ssa.Function
+		for f := range ssautil.AllFunctions(w.Prog) {
+			if f.Synthetic != "" && f.Blocks != nil && w.inModule(f) && strings.Contains(f.String(), *dumpFunc) {
+				syn = append(syn, f)
+			}
+		}
+		sort.Slice(syn, func(i, j int) bool { return syn[i].String() < syn[j].String() })
+		for _, f := range syn {
+			f.WriteTo(os.Stdout)
 		}
 		return
 	}
